@@ -405,7 +405,7 @@ func GenC03(seed uint64) *Scenario {
 		ops = append(ops, mk("update", 1+g.r.Intn(10), false))
 	case 2: // fill to almost full, then a release that itself carries usage
 		ops = append(ops, create)
-		fill := 1900 + g.r.Intn(400)
+		fill := 2300 + g.r.Intn(800)
 		for fill > 0 {
 			n := 100 + g.r.Intn(300)
 			if n > fill {
@@ -414,7 +414,7 @@ func GenC03(seed uint64) *Scenario {
 			ops = append(ops, mk("update", n, false))
 			fill -= n
 		}
-		ops = append(ops, mk("release", 50+g.r.Intn(400), true))
+		ops = append(ops, mk("release", 20+g.r.Intn(700), true))
 	case 3: // create that itself carries a lot of usage
 		create.Units = []Unit{{RG: s.rgs[0], Req: 10}}
 		for i, n := 0, 1500+g.r.Intn(2000); i < n; i++ {
